@@ -42,28 +42,54 @@ def getDue (j : Json) : Except String Due := do
   let a ← getNat j "at"
   pure (if (← getBool j "abs") then .abs a else .rel a)
 
-/-- `"inners"`: the timelines (relative times) of the observables the mapper returns, by call ordinal (cyclic) -/
-def getInners (j : Json) : Except String (List (TL Val)) := do
+/-- an observable returned by a mapper: a cold observable (timeline relative to its subscription) or one that signals
+synchronously inside `subscribe` (BehaviorSubject, finished Subject, `empty()` on ImmediateScheduler) -/
+inductive Inner where
+  | cold (tl : TL Val)
+  | inline (sigs : List Sig)
+
+/-- `"inners"`: the observables the mapper returns, by call ordinal (cyclic) -/
+def getInners (j : Json) : Except String (List Inner) := do
   (← getArr j "inners").mapM fun x =>
     match x with
-    | .arr a => tlOfJson a.toList
-    | _ => throw "bad inner timeline"
+    | .arr a => do pure (.cold (← tlOfJson a.toList))
+    | .obj _ => do
+      match (← getStr x "inline") with
+      | "B" => pure (.inline [.next])
+      | "CS" => pure (.inline [.completed])
+      | "EI" => pure (.inline [.completed])
+      | "ES" => pure (.inline [.error "inlineErr"])
+      | "RI" => pure (.inline [.next, .completed])
+      | k => throw s!"bad inline kind {k}"
+    | _ => throw "bad inner observable"
 
-def innerOf (inners : List (TL Val)) (k : Nat) : TL Val :=
-  if inners.isEmpty then [] else inners.getD (k % inners.length) []
+def innerOf (inners : List Inner) (k : Nat) : Inner :=
+  if inners.isEmpty then .cold [] else inners.getD (k % inners.length) (.cold [])
 
 def getRaises (j : Json) : Except String (Nat → Val → Option String) := do
   match (← getOptInt j "raise_at") with
   | some r => pure (fun k _ => if (k : Int) == r then some "mapErr" else none)
   | none => pure (fun _ _ => none)
 
-def srcEvents (src : TL Val) : List (Nat × MEv Val) := src.map (fun m => (m.1, MEv.src m.2))
+/-- the source's events; an inline inner observable signals right after the element it was created for (inside that
+element's `on_next`, before anything else queued for the instant) -/
+def srcEvents (inners : List Inner) (off : Nat) : Nat → TL Val → List (Nat × MEv Val)
+  | _, [] => []
+  | k, (t, .next v) :: r =>
+    (t, MEv.src (.next v)) ::
+      ((match innerOf inners (k + off) with
+        | .inline sigs => sigs.map (fun sg => (t, MEv.inner (k + off) sg))
+        | .cold _ => []) ++ srcEvents inners off (k + 1) r)
+  | k, (t, n) :: r => (t, MEv.src n) :: srcEvents inners off k r
 
-/-- inner observables for the source elements: element `i` (arriving at `t_i`) gets index `i + off` -/
-def elemInners (inners : List (TL Val)) (off : Nat) (src : TL Val) : List (Nat × MEv Val) :=
-  (((elemTimes src).zipIdx).map (fun (p : Nat × Nat) => innerEvents (α := Val) (p.2 + off) p.1 (innerOf inners (p.2 + off)))).flatten
+/-- scheduled (cold) inner observables for the source elements: element `i` (arriving at `t_i`) gets index `i + off` -/
+def elemInners (inners : List Inner) (off : Nat) (src : TL Val) : List (Nat × MEv Val) :=
+  (((elemTimes src).zipIdx).map (fun (p : Nat × Nat) =>
+    match innerOf inners (p.2 + off) with
+    | .cold tl => innerEvents (α := Val) (p.2 + off) p.1 tl
+    | .inline _ => [])).flatten
 
-def handle (op : String) (j : Json) : Except String Json := do
+def handle1 (op : String) (j : Json) : Except String Json := do
   let sub ← getNat j "sub"
   let isCold := (← getStr j "src") == "cold"
   let src ← getSeen j sub
@@ -131,12 +157,14 @@ def handle (op : String) (j : Json) : Except String Json := do
   | "delay_subscription" =>
     let S := max ((← getDue j).at sub) sub
     let src' := seen (← getStr j "src") S (← tlOfJson (← getArr j "msgs"))
-    pure (both (dsRun [] src') (dsSpec src'))
+    -- subscribed without a scheduler argument the mapper's `empty()` completes inline (ImmediateScheduler): plain relay
+    if (j.getObjValAs? Bool "inline").toOption == some true then pure (both src' (conform src'))
+    else pure (both (dsRun [] src') (dsSpec src'))
   -- *_with_mapper
   | "throttle_with_mapper" =>
     let inners ← getInners j
     let raises ← getRaises j
-    let tr := mergeStable (srcEvents src ++ elemInners inners 0 src)
+    let tr := mergeStable (srcEvents inners 0 0 src ++ elemInners inners 0 src)
     pure (both (twmRun raises tr) (twmSpec raises tr))
   | "delay_with_mapper" =>
     let inners ← getInners j
@@ -153,11 +181,11 @@ def handle (op : String) (j : Json) : Except String Json := do
         | (r, .completed) :: _ => seen kind (sub + r) msgs
         | _ => []
       -- a cold source is scheduled when `start()` subscribes it, i.e. after the subscription delay's own messages
-      let tr := if isCold then mergeStable (subEv ++ srcEvents src' ++ elemInners inners 0 src')
-                else mergeStable (srcEvents src' ++ subEv ++ elemInners inners 0 src')
+      let tr := if isCold then mergeStable (subEv ++ srcEvents inners 0 0 src' ++ elemInners inners 0 src')
+                else mergeStable (srcEvents inners 0 0 src' ++ subEv ++ elemInners inners 0 src')
       pure (both (dwmRun raises true tr) (dwmRun raises true tr))
     | _ =>
-      let tr := mergeStable (srcEvents src ++ elemInners inners 0 src)
+      let tr := mergeStable (srcEvents inners 0 0 src ++ elemInners inners 0 src)
       pure (both (dwmRun raises false tr) (dwmRun raises false tr))
   | "timeout_with_mapper" =>
     let inners ← getInners j
@@ -174,10 +202,21 @@ def handle (op : String) (j : Json) : Except String Json := do
         let om ← tlOfJson (← getArr oj "msgs")
         pure (fun S => seen kind S om)
       | _ => pure (fun S => [(S, Notif.error "Exception")])
-    let tr := if isCold then mergeStable (first ++ srcEvents src ++ elemInners inners 1 src)
-              else mergeStable (srcEvents src ++ first ++ elemInners inners 1 src)
+    let tr := if isCold then mergeStable (first ++ srcEvents inners 1 0 src ++ elemInners inners 1 src)
+              else mergeStable (srcEvents inners 1 0 src ++ first ++ elemInners inners 1 src)
     pure (both (towmRun raises other tr) (towmSpec raises other tr))
   | _ => throw s!"unknown op {op}"
+
+/-- every subscription has its own state: a second subscription at `sub2` of the same observable is the same run from
+`sub2` (`run2` / `spec2`) -/
+def handle (op : String) (j : Json) : Except String Json := do
+  let r ← handle1 op j
+  match getOptInt j "sub2" with
+  | .ok (some t2) =>
+    let r2 ← handle1 op (j.setObjVal! "sub" (.num (JsonNumber.fromInt t2)))
+    pure (Json.mkObj [("run", (← r.getObjVal? "run")), ("spec", (← r.getObjVal? "spec")),
+                      ("run2", (← r2.getObjVal? "run")), ("spec2", (← r2.getObjVal? "spec"))])
+  | _ => pure r
 
 end DrvTimed
 
